@@ -35,6 +35,11 @@ CASES = [
  ("C11", "random.py", "        if query is None or query.user_id is None:", "        if not query or not query.user_id:", "break"),
  ("C18", "pipeline/_impl.py", "        elif options.rng is None or isinstance(options.rng, (Generator, BitGenerator)):", "        elif not options.rng or isinstance(options.rng, (Generator, BitGenerator)):", "break"),
  ("C18", "pipeline/_impl.py", "c_opts = options if seed is None else replace(options, rng=seed.spawn(1)[0])", "c_opts = options if not seed else replace(options, rng=seed.spawn(1)[0])", "break"),
+ ("C14", "pipeline/builder.py", "            builder._edges[name] = dict(spec.inputs)", "            builder._edges[name] = spec.inputs", "break"),
+ ("C14", "pipeline/builder.py", "        edges = deepcopy(self._edges)", "        edges = dict(self._edges)", "break"),
+ ("C14", "pipeline/builder.py", "        edges = deepcopy(self._edges)", "        edges = {n: dict(w) for (n, w) in self._edges.items()}", "keep"),
+ ("C14", "data/builder.py", "        return DataContainer(self.schema.model_copy(deep=True), tables)", "        return DataContainer(self.schema.model_copy(), tables)", "break"),
+ ("C14", "data/builder.py", "            self.schema = name.schema.model_copy(deep=True)", "            self.schema = name.schema", "break"),
  ("C18", "basic/popularity.py", "        if hasattr(self, \"item_scores_\") and not options.retrain:\n            return\n\n        _log.info(\"counting item popularity\")", "        if hasattr(self, \"item_scores_\") or not options.retrain:\n            return\n\n        _log.info(\"counting item popularity\")", "break"),
  ("C18", "knn/item.py", "        if hasattr(self, \"items_\") and not options.retrain:", "        if not options.retrain and hasattr(self, \"items_\"):", "keep"),
  ("C18", "basic/bias.py", "        if hasattr(self, \"model_\") and not options.retrain:", "        if hasattr(self, \"model_\"):", "break"),
